@@ -138,6 +138,22 @@ func (e *Engine) FindFunc(pkgPath, name string) *ssa.Function {
 	return nil
 }
 
+// RepoFunctions lists every function and method with a body in the loaded packages of the repository (overlay
+// harness files excluded), with its SSA instruction count.
+func (e *Engine) RepoFunctions() map[string]int {
+	out := map[string]int{}
+	for fn := range ssautil.AllFunctions(e.Prog) {
+		if fn.Blocks == nil || fn.Synthetic != "" || !e.inRepo(fn) {
+			continue
+		}
+		if pos := e.Prog.Fset.Position(fn.Pos()); strings.Contains(pos.Filename, "zz_verif") || strings.Contains(pos.Filename, "/verifrt/") || strings.Contains(pos.Filename, "/verifk8s/") {
+			continue
+		}
+		out[fn.String()] = countInstrs(fn)
+	}
+	return out
+}
+
 // ------------------------------------------------------------------ exploration
 
 type PathOutcome int
